@@ -64,6 +64,22 @@ fn route_attr(o: u32) -> Arc<Vec<Attribute>> {
             bin.extend_from_slice(&64501u32.to_be_bytes());
             bin.extend_from_slice(&64502u32.to_be_bytes());
         }
+        98 => {
+            // AS_SEQUENCE [65000, AS 1] then an AS_SET as the final segment: origin NONE all the same
+            bin.extend_from_slice(&[2, 2]);
+            bin.extend_from_slice(&65000u32.to_be_bytes());
+            bin.extend_from_slice(&real_asn(1).to_be_bytes());
+            bin.extend_from_slice(&[1, 2]);
+            bin.extend_from_slice(&64502u32.to_be_bytes());
+            bin.extend_from_slice(&64503u32.to_be_bytes());
+        }
+        5 => {
+            // an AS_SET in front, AS_SEQUENCE [AS 1] as the final segment: the origin is AS 1
+            bin.extend_from_slice(&[1, 1]);
+            bin.extend_from_slice(&64502u32.to_be_bytes());
+            bin.extend_from_slice(&[2, 1]);
+            bin.extend_from_slice(&real_asn(1).to_be_bytes());
+        }
         3 => {} // empty AS_PATH: locally originated, origin = local AS
         a => {
             bin.extend_from_slice(&[2, 2]);
